@@ -66,7 +66,10 @@ class StatementSplitter:
         # BEGIN and CASE/WHEN both end with END
         if unified == 'END':
             if not self._in_case:
+                # only the END of a BEGIN that raised the level lowers it
+                raised = self._is_create and self._begin_depth > 0
                 self._begin_depth = max(0, self._begin_depth - 1)
+                return -1 if raised else 0
             else:
                 self._in_case -= 1
             return -1
